@@ -16,7 +16,9 @@ TRUSTED = ['Coq 8.16.1 kernel + vm_compute (case evaluation)', 'harness/p17.py v
 ASSUMES = ['Python == on keys is modelled by py_eq (bool/int/Decimal numeric tower, structural otherwise); floats are not generated as keys',
            'rows reach the step as dicts with the schema\'s keys']
 
-POOL = [None, 0, 1, 2, -1, True, False, 'a', 'b', 'ab', 'x y', decimal.Decimal('1.0'), decimal.Decimal('2.50'), 'é☃']
+# includes values whose CPython hashes collide although they differ (hash(-1) == hash(-2), hash(2**61-1) == hash(0))
+POOL = [None, 0, 1, 2, -1, -2, True, False, 'a', 'b', 'ab', 'x y', decimal.Decimal('1.0'), decimal.Decimal('2.50'), 'é☃',
+        2 ** 61 - 1]
 NAMES = ['k', 'a', 'b', 'c1', 'c2', 'v.1', 'n*']
 
 
@@ -25,6 +27,8 @@ def gen_table(rng, ncols=None, nrows=None, pool=POOL):
     names = rng.sample(NAMES, ncols)
     nrows = rng.randint(0, 12) if nrows is None else nrows
     sub = rng.sample(pool, rng.randint(2, 6))
+    if rng.chance(0.25):
+        sub = [-1, -2, 0, 2 ** 61 - 1] + sub[:1]
     rows = [dict((n, rng.pick(sub)) for n in names) for _ in range(nrows)]
     return names, rows
 
